@@ -31,9 +31,7 @@ static const Mode g_modes[] = {
   {"corrupt", gen_corrupt, exec_corrupt},
   {"logfmt", gen_logfmt, exec_logfmt},
   {"repair", gen_repair, exec_repair},
-#ifdef LSIM_ALL_MODES
   {"life", gen_life, exec_life},
-#endif
 };
 const Mode *find_mode(const string &n) { for (auto &m : g_modes) if (n == m.name) return &m; return nullptr; }
 
